@@ -3,8 +3,10 @@
 `prov(prog, body, operand)` returns the set of expressions an operand may hold:
 
     ('param', fn path, k, fields)       parameter k of a plain function (k = 1 is `self` for methods), with the field path read
-    ('elem', X)                          an element yielded by iterating X: the Some-payload of `Iterator::next(X)`, or the element
-                                         parameter of a closure handed to an adaptor (`for_each`, `map`, ...) whose receiver is X
+    ('elem', X, where)                   an element yielded by iterating X: the Some-payload of `Iterator::next(X)`, or the element
+                                         parameter of a closure handed to an adaptor (`for_each`, `map`, ...) whose receiver is X;
+                                         `where` names the closure / the next() site, so that two nested iterations over equal
+                                         ranges stay distinct
     ('field', X, f)                      field / tuple component f of X (for an enumerate() element: 0 = index, 1 = item)
     ('call', decl, (args..), closures)   result of a call; reference/view/conversion calls are looked through
     ('const', v) | ('agg', kind, (ops..)) | ('op', name, (ops..)) | ('?', why)
@@ -54,7 +56,10 @@ def _closures(prog, body, c):
 
 def _wrap_fields(e, fields):
     for f in fields:
-        e = ("field", e, str(f))
+        if e[0] == "param":
+            e = ("param", e[1], e[2], e[3] + (str(f),))
+        else:
+            e = ("field", e, str(f))
     return e
 
 
@@ -81,14 +86,14 @@ def _closure_param(prog, clo, k, depth):
                 recv = prov(prog, par, args[0], depth + 1)
                 # fold-like adaptors: (acc, element); everything else: (element)
                 if d.endswith("Iterator::fold") or d.endswith("Iterator::try_fold"):
-                    if k == 3 or (k == 2 and False):
-                        out |= {("elem", r) for r in recv}
+                    if k == 3:
+                        out |= {("elem", r, clo.path) for r in recv}
                     else:
                         out.add(("?", "accumulator"))
                 elif d.startswith("core::option::Option::") or d.startswith("core::result::Result::"):
                     out |= {("field", r, "0") for r in recv} if k == 2 else {("?", "closure parameter")}
                 else:
-                    out |= {("elem", r) for r in recv} if k == 2 else {("?", "closure parameter")}
+                    out |= {("elem", r, clo.path) for r in recv} if k == 2 else {("?", "closure parameter")}
             else:
                 out.add(("?", "adaptor without receiver"))
         elif prog.body_for_callee(c, par) is clo and len(cs.node["args"]) >= 2:
@@ -137,7 +142,7 @@ def prov(prog, body, place_or_op, depth=0):
                 # Some-payload of next(): fields start with the Option payload
                 rest = flds[1:] if flds and str(flds[0]) == "0" else flds
                 for r in prov(prog, body, args[0], depth + 1):
-                    out.add(_wrap_fields(("elem", r), rest))
+                    out.add(_wrap_fields(("elem", r, "%s@bb%d" % (body.path, o.site.bb)), rest))
                 continue
             aexprs = []
             for a in args[:4]:
